@@ -70,6 +70,18 @@ Theorem C16_implicit_mapping_total : forall (ts tt : ity) (spat tpat : pattern) 
 Proof. exact left_implicit_total. Qed.
 Print Assumptions C16_implicit_mapping_total.
 
+(* ... for all three standard layouts, and widening the index type never invalidates a mapping *)
+Theorem C16_implicit_same_layout_total : forall (ts tt : ity) (spat tpat : pattern) (dv : list Z) (m : mapping) (k : lkind),
+  same_kind_target m = Some k -> exts m = fill ts spat dv ->
+  ext_compatible (mkE ts spat) (mkE tt tpat) = true -> ext_explicit (mkE ts spat) (mkE tt tpat) = false ->
+  pat_rep ts spat -> Forall (fun v => 0 <= v <= imax ts) dv -> valid ts m ->
+  conv_mapping ts m (mkmt tt tpat k None) = Ok m /\ valid tt m.
+Proof. exact same_kind_implicit_total. Qed.
+Print Assumptions C16_implicit_same_layout_total.
+Theorem C16_valid_widen : forall (ts tt : ity) (m : mapping), imax ts <= imax tt -> valid ts m -> valid tt m.
+Proof. exact valid_widen. Qed.
+Print Assumptions C16_valid_widen.
+
 (* default_accessor<T> converts from default_accessor<U> iff U( * )[] converts to T( * )[] *)
 Theorem C16_default_accessor : forall u t : elt,
   acc_convertible (ADefault u) (ADefault t) = true <-> el_base u = el_base t /\ (el_const u = true -> el_const t = true).
